@@ -86,7 +86,10 @@ type stmt struct {
 	sub     []*stmt
 }
 
-var argPool = []string{"a", "b", "c", "p:a", "/a", "/p:a/p:b", "../a", "1", "0", "-1", "1..5", "min..max", "true", "false", "string", "int8", "decimal64", "enumeration", "union", "identityref", "add", "delete", "replace", "not-supported", "user", "unbounded", "2020-01-01", "input", "18446744073709551616", "1.5", "a b", ""}
+var argPool = []string{"a", "b", "c", "p:a", "/a", "/p:a/p:b", "../a", "1", "0", "-1", "1..5", "min..max", "true", "false", "string", "int8", "decimal64", "enumeration", "union", "identityref", "add", "delete", "replace", "not-supported", "user", "unbounded", "2020-01-01", "input", "18446744073709551616", "1.5", "a b", "",
+	// arguments with blanks at their ends or nothing else: a node is named by its statement's
+	// argument exactly, not by a tidied version of it
+	" ", " a", "a ", "\ta", "a\t", " a b ", "  ", "a\n", "\na", " 1..5 ", "x  "}
 
 func gen(r *rand.Rand, kw string, depth int) *stmt {
 	s := &stmt{kw: kw, arg: argPool[r.Intn(len(argPool))]}
